@@ -10,6 +10,7 @@ CONSTANTS
   MaxMut = 1000000
   MaxSnap = 1000000
   MaxDepth = 1000
+  MaxTx = 1000000
   FrameAddr <- FrEL
   NewAddrs <- NewEL
   XferTo <- XferEL
